@@ -8,13 +8,52 @@ package goja
 // the generator's own frames did not handle while return() was unwinding them - must not leave them
 // behind (C03, C15, C08).
 
+// The guarantee every function that enters such a region owes when it is left by a panic - the same
+// thing unknown code is assumed to satisfy (abruptrely): the markers that were there are still there,
+// and no marker is left behind that was not there before.
+//@ define gMarkersKept = forall m int :: 0 <= m && m < old(len(g.vm.tryStack)) && (old(g.vm.tryStack[m].catchPos) == tryPanicMarker && old(g.vm.tryStack[m].finallyRet) == -1) ==> m < len(g.vm.tryStack) && (g.vm.tryStack[m].catchPos == tryPanicMarker && g.vm.tryStack[m].finallyRet == -1)
+//@ define gNoNewMarkers = forall m int :: 0 <= m && m < len(g.vm.tryStack) && (g.vm.tryStack[m].catchPos == tryPanicMarker && g.vm.tryStack[m].finallyRet == -1) ==> m < old(len(g.vm.tryStack)) && (old(g.vm.tryStack[m].catchPos) == tryPanicMarker && old(g.vm.tryStack[m].finallyRet) == -1)
+//@ define gMarkersKeptBelow = forall m int :: 0 <= m && m < int(g.tryStackLen) && m < old(len(g.vm.tryStack)) && (old(g.vm.tryStack[m].catchPos) == tryPanicMarker && old(g.vm.tryStack[m].finallyRet) == -1) ==> m < len(g.vm.tryStack) && (g.vm.tryStack[m].catchPos == tryPanicMarker && g.vm.tryStack[m].finallyRet == -1)
+// ... below the generator's own marker (above it the generator's finally frames may have been latched)
+//@ define gNoNewMarkersBelow = forall m int :: 0 <= m && m < int(g.tryStackLen)-1 && m < len(g.vm.tryStack) && (g.vm.tryStack[m].catchPos == tryPanicMarker && g.vm.tryStack[m].finallyRet == -1) ==> m < old(len(g.vm.tryStack)) && (old(g.vm.tryStack[m].catchPos) == tryPanicMarker && old(g.vm.tryStack[m].finallyRet) == -1)
+
 // While a generator runs it cannot be re-entered (validate() rejects the executing state), so nobody
 // re-records the heights it was entered at.
 //@ jspreserved generator.tryStackLen
 
+// The deferred cleanup: when a panic is passing through and the marker frame recorded by
+// enter()/enterNext() is still on the stack, everything from that frame up is cut off and the context
+// pushed with it is popped; the panic continues with the same value. When nothing is being panicked
+// it does nothing.
+//@ func (*generator).unwindOnPanic
+//@   props C03 C15 C08
+//@   requires g != nil && g.vm != nil
+//@   ensures recovered == nil [never-swallows-a-panic]
+//@   ensures_abrupt same(panicValue, recovered) [rethrows-same-value]
+//@   ensures_abrupt int(g.tryStackLen) >= 1 && int(g.tryStackLen) <= old(len(g.vm.tryStack)) ==> len(g.vm.tryStack) == int(g.tryStackLen)-1 [marker-and-everything-above-removed]
+//@   ensures_abrupt !(int(g.tryStackLen) >= 1 && int(g.tryStackLen) <= old(len(g.vm.tryStack))) ==> len(g.vm.tryStack) == old(len(g.vm.tryStack)) [already-unwound-is-left-alone]
+//@   ensures_abrupt samearray(g.vm.tryStack, old(g.vm.tryStack)) && sliceoff(g.vm.tryStack, old(g.vm.tryStack)) == 0 && g.tryStackLen == old(g.tryStackLen) [frames-below-untouched]
+//@   assigns nothing if recovered == nil
+//@   assigns any(vm.tryStack), any(vm.callStack), any(context.prg), any(context.stash), any(context.privEnv), any(context.newTarget), any(context.result), any(context.pc), any(context.sb), any(context.args), any(vm.prg), any(vm.stash), any(vm.privEnv), any(vm.newTarget), any(vm.result), any(vm.pc), any(vm.sb), any(vm.args)
+
 //@ func (*generator).step
 //@   props C03 C15
-//@   maypanic
+//@   requires g != nil && g.vm != nil && int(g.tryStackLen) >= 1 && int(g.tryStackLen) <= len(g.vm.tryStack) && g.vm.tryStack[int(g.tryStackLen)-1].catchPos == tryPanicMarker && g.vm.tryStack[int(g.tryStackLen)-1].finallyRet == -1
+//@   loop 1 invariant g.vm == old(g.vm) && g.tryStackLen == old(g.tryStackLen) && int(g.tryStackLen) <= len(g.vm.tryStack) && g.vm.tryStack[int(g.tryStackLen)-1].catchPos == tryPanicMarker && g.vm.tryStack[int(g.tryStackLen)-1].finallyRet == -1 [own-marker-in-place]
+//@   loop 1 invariant @gMarkersKeptBelow [markers-kept]
+//@   loop 1 invariant @gNoNewMarkersBelow [no-new-markers-below-own]
+//@   loop 2 invariant g.vm == old(g.vm) && g.tryStackLen == old(g.tryStackLen) && int(g.tryStackLen) <= len(g.vm.tryStack) && g.vm.tryStack[int(g.tryStackLen)-1].catchPos == tryPanicMarker && g.vm.tryStack[int(g.tryStackLen)-1].finallyRet == -1 [own-marker-in-place]
+//@   loop 2 invariant @gMarkersKeptBelow [markers-kept]
+//@   loop 2 invariant @gNoNewMarkersBelow [no-new-markers-below-own]
+//@   ensures_abrupt @ownMarker [own-marker-still-in-place]
+//@   ensures_abrupt g.tryStackLen == old(g.tryStackLen) [heights-record-kept]
+//@   ensures_abrupt @gMarkersKeptBelow [markers-kept]
+//@   ensures_abrupt @gNoNewMarkersBelow [no-new-markers-below-own]
+//@   ensures @ownMarker [own-marker-still-in-place]
+//@   ensures g.tryStackLen == old(g.tryStackLen) [heights-record-kept]
+//@   ensures @gMarkersKeptBelow [markers-kept]
+//@   ensures @gNoNewMarkersBelow [no-new-markers-below-own]
+//@   assigns script, @vmRegs
 
 //@ func (*generator).storeLengths
 //@   props C03 C15
@@ -27,18 +66,60 @@ package goja
 //@   props C03 C15
 //@   requires vm != nil && ctx != nil
 //@   loop 1 invariant len(vm.tryStack) == old(len(vm.tryStack)) [nothing-appended-yet]
-//@   loop 1 invariant forall m int :: 0 <= m && m < len(vm.tryStack) ==> vm.tryStack[m].catchPos == old(vm.tryStack[m].catchPos) [frames-below-kept]
+//@   loop 1 invariant forall m int :: 0 <= m && m < len(vm.tryStack) ==> vm.tryStack[m].catchPos == old(vm.tryStack[m].catchPos) && vm.tryStack[m].finallyRet == old(vm.tryStack[m].finallyRet) [frames-below-kept]
 //@   ensures len(vm.tryStack) >= old(len(vm.tryStack)) [frames-appended]
-//@   ensures forall m int :: 0 <= m && m < old(len(vm.tryStack)) ==> vm.tryStack[m].catchPos == old(vm.tryStack[m].catchPos) [frames-below-kept]
+//@   ensures forall m int :: 0 <= m && m < old(len(vm.tryStack)) ==> vm.tryStack[m].catchPos == old(vm.tryStack[m].catchPos) && vm.tryStack[m].finallyRet == old(vm.tryStack[m].finallyRet) [frames-below-kept]
 //@   assigns vm.prg, vm.stash, vm.privEnv, vm.newTarget, vm.result, vm.pc, vm.sb, vm.args, vm.sp, vm.stack, elems(vm.stack), vm.tryStack, elems(vm.tryStack), vm.iterStack, elems(vm.iterStack), vm.refStack, elems(vm.refStack), any(tryFrame.callStackLen), any(tryFrame.iterLen), any(tryFrame.refLen), any(tryFrame.sp)
 
 //@ func (*generator).enterNext
 //@   props C03 C15
 //@   requires g != nil && g.vm != nil
+//@   ensures forall m int :: 0 <= m && m < old(len(g.vm.tryStack)) ==> g.vm.tryStack[m].catchPos == old(g.vm.tryStack[m].catchPos) && g.vm.tryStack[m].finallyRet == old(g.vm.tryStack[m].finallyRet) [frames-below-kept]
 //@   requires g != nil && g.vm != nil
-//@   ensures int(g.tryStackLen) == old(len(g.vm.tryStack))+1 && int(g.tryStackLen) <= len(g.vm.tryStack) && g.vm.tryStack[int(g.tryStackLen)-1].catchPos == tryPanicMarker [marker-pushed-and-recorded]
+//@   ensures int(g.tryStackLen) == old(len(g.vm.tryStack))+1 && int(g.tryStackLen) <= len(g.vm.tryStack) && g.vm.tryStack[int(g.tryStackLen)-1].catchPos == tryPanicMarker && g.vm.tryStack[int(g.tryStackLen)-1].finallyRet == -1 [marker-pushed-and-recorded]
 
 //@ func (*generator).next
 //@   props C03 C15
 //@   requires g != nil && g.vm != nil
-//@   ensures_abrupt len(g.vm.tryStack) == old(len(g.vm.tryStack)) [frames-unwound-on-panic]
+//@   ensures_abrupt @gMarkersKept [markers-kept]
+//@   ensures_abrupt @gNoNewMarkers [no-marker-left-behind]
+
+//@ func (*generator).nextThrow
+//@   props C03 C15
+//@   requires g != nil && g.vm != nil
+//@   ensures_abrupt @gMarkersKept [markers-kept]
+//@   ensures_abrupt @gNoNewMarkers [no-marker-left-behind]
+
+//@ func (*generator).enter
+//@   props C03 C15
+//@   requires g != nil && g.vm != nil
+//@   ensures forall m int :: 0 <= m && m < old(len(g.vm.tryStack)) ==> g.vm.tryStack[m].catchPos == old(g.vm.tryStack[m].catchPos) && g.vm.tryStack[m].finallyRet == old(g.vm.tryStack[m].finallyRet) [frames-below-kept]
+//@   ensures int(g.tryStackLen) == old(len(g.vm.tryStack))+1 && @ownMarker [marker-pushed-and-recorded]
+
+//@ func (*baseObject).init
+//@   props C03
+//@   requires o != nil
+//@   assigns o.values
+
+// Creating a generator object runs the prologue of the generator function up to the initial yield.
+//@ func (*generatorObject).init
+//@   props C03 C15
+//@   requires g != nil && g.val != nil && g.val.runtime != nil && g.val.runtime.vm != nil
+//@   exitvars vm *vm
+//@   ensures_abrupt vm != nil [has-vm]
+//@   ensures_abrupt @markersKept [markers-kept]
+//@   ensures_abrupt @noNewMarkers [no-marker-left-behind]
+
+//@ func (*generatorObject)._return
+//@   props C03 C15 C08
+//@   requires g != nil && g.gen.vm != nil
+//@   ensures_abrupt forall m int :: 0 <= m && m < old(len(g.gen.vm.tryStack)) && (old(g.gen.vm.tryStack[m].catchPos) == tryPanicMarker && old(g.gen.vm.tryStack[m].finallyRet) == -1) ==> m < len(g.gen.vm.tryStack) && (g.gen.vm.tryStack[m].catchPos == tryPanicMarker && g.gen.vm.tryStack[m].finallyRet == -1) [markers-kept]
+//@   ensures_abrupt forall m int :: 0 <= m && m < len(g.gen.vm.tryStack) && (g.gen.vm.tryStack[m].catchPos == tryPanicMarker && g.gen.vm.tryStack[m].finallyRet == -1) ==> m < old(len(g.gen.vm.tryStack)) && (old(g.gen.vm.tryStack[m].catchPos) == tryPanicMarker && old(g.gen.vm.tryStack[m].finallyRet) == -1) [no-marker-left-behind]
+
+//@ func (*asyncRunner).start
+//@   props C03 C15
+//@   requires ar != nil && ar.f != nil && ar.f.runtime != nil && ar.f.runtime.vm != nil
+//@   exitvars r *Runtime
+//@   ensures_abrupt r != nil && r.vm != nil [has-vm]
+//@   ensures_abrupt forall m int :: 0 <= m && m < old(len(r.vm.tryStack)) && (old(r.vm.tryStack[m].catchPos) == tryPanicMarker && old(r.vm.tryStack[m].finallyRet) == -1) ==> m < len(r.vm.tryStack) && (r.vm.tryStack[m].catchPos == tryPanicMarker && r.vm.tryStack[m].finallyRet == -1) [markers-kept]
+//@   ensures_abrupt forall m int :: 0 <= m && m < len(r.vm.tryStack) && (r.vm.tryStack[m].catchPos == tryPanicMarker && r.vm.tryStack[m].finallyRet == -1) ==> m < old(len(r.vm.tryStack)) && (old(r.vm.tryStack[m].catchPos) == tryPanicMarker && old(r.vm.tryStack[m].finallyRet) == -1) [no-marker-left-behind]
